@@ -1158,3 +1158,37 @@ Theorem legacy_removal_leaves_routes_refuted_std :
   ideal_query (s_rib (es_s (is_e stf))) 0 1 = [((0%N, (0, 0, 0, 0, 1, 65001, 1)%N), false, 3%N)] /\
   is_run stl = false /\ i_session stl 0%N = None.
 Proof. exact legacy_removal_leaves_routes_refuted. Qed.
+
+(* ---- a router of the unit that a reload has just started is a NEW source ---- *)
+
+(* The first connection of a router address to the bmp-in unit that a reload has started: the unit looks the router
+   up under ITS OWN ingress id, which no earlier source has as parent - nothing is found, the router is registered
+   afresh: it gets the register's next id, an id that no source had (so none of the ids whose routes the removal
+   withdrew is used again, and known finding C03-1 - the sticky withdrawn marker of a REUSED id - cannot apply to what
+   it announces) *)
+Theorem router_of_added_unit_is_a_new_source lg st k :
+  is_run st = false -> is_want st = true -> (k < 4)%N ->
+  next_id_unused (w_reg (es_w (is_e st))) ->
+  let st1 := i_step lg st (IE EReload) in
+  let st2 := i_step lg st1 (IE (EW (WConnect k))) in
+  is_uid st1 = serial (w_reg (es_w (is_e st))) /\
+  i_rid st2 k = Some (serial (w_reg (es_w (is_e st1)))).
+Proof.
+  intros Hr Hw Hk Hnext. cbn zeta.
+  destruct (added_unit_is_a_new_parent lg st Hr Hw) as (H1 & H2 & H3 & _ & _ & H6). cbn zeta in *.
+  set (st1 := i_step lg st (IE EReload)) in *. split; [exact H3|].
+  assert (Hon : on_unit1 k = true) by (apply N.ltb_lt; exact Hk).
+  assert (H8 : (8 <=? k)%N = false) by (apply N.leb_gt; lia).
+  unfold i_rid. cbn [i_step wop_router]. rewrite H8, Hon, H1. cbn [andb negb is_e is_gen].
+  cbn [wop_rekey e_step]. cbn [es_map_w es_w]. cbn [wstep w_set_unit w_reg w_unit].
+  set (r1 := w_reg (es_w (is_e st1))) in *.
+  set (key := src_key (is_gen st1) k).
+  assert (Hnone : reg_find_all router_match r1 (router_query (is_uid st1) key) = []).
+  { destruct (reg_find_all router_match r1 (router_query (is_uid st1) key)) as [|id l] eqn:E; [reflexivity|].
+    assert (Hin : id ∈ reg_find_all router_match r1 (router_query (is_uid st1) key)) by (rewrite E; apply elem_of_list_here).
+    apply elem_of_find_all in Hin as (inf & Hinf & Hm). apply router_match_spec in Hm as (_ & Hp & _).
+    cbn [router_query i_parent] in Hp. rewrite H3 in Hp. rewrite H6 in Hinf.
+    exfalso. apply (Hnext id inf Hinf Hp). }
+  unfold find_or_register. rewrite Hnone. unfold reg_register. cbn [fst snd es_w w_routers].
+  fold key. rewrite lookup_insert. reflexivity.
+Qed.
